@@ -22,7 +22,8 @@ RULE = ('one run = one simulated hand under a random subset of the 11 automation
         'automation mask, operation-class sequence) digests')
 ASSUMPTIONS = [
     'deck capacity rule: run-out counts are only chosen while the deck can physically serve them',
-    'hands reaching a showdown are known (no unknown cards are dealt in this check)',
+    'hands reaching a showdown are known; the only unknown card dealt in this check is one player\'s third-street door card '
+    'in a stud game (fault unknown_door_card), and that player folds on third street',
     'K2 (every player mucks voluntarily at an all-in showdown before the last street) is listed in known_findings.json',
 ]
 BIAS = dict(custom_num=1, rakes=('none', 'none', 'pct'))
@@ -159,6 +160,13 @@ def run(ch, ctx):
     try:
         world = World(ch, ctx, cfg, [mon], run_key=run_key_of(ch))
         world.tick_cap = op_bound(cfg, world.state)
+        if cfg['variant'] in ('F7S', 'F7S8', 'FR', 'XSHL') and cfg['n'] >= 3 and not (cfg['autos'] >> 4 & 1) and cfg['bring_in'] > 0 \
+                and ch.chance('c07.unknown_door', 1, 2):
+            # (hole dealing not automated, a bring-in so that he faces a bet) one deep-stacked player's door card is dealt as "??";
+            # he folds on third street
+            deep = [i for i in range(cfg['n']) if cfg['stacks'][i] > 4 * cfg['bb'] + 4]
+            if len(deep) == cfg['n']:         # (everybody can act, so the bring-in stays with the lowest KNOWN door card)
+                world.unknown_door = deep[ch.pick('c07.unknown_door.who', len(deep))]
         world.run()
     except EngineCrash as c:
         if world is not None:
